@@ -142,6 +142,14 @@ def py_repr(interp, v, path):
             if len(v.concrete) == 1:
                 return mkstr(['{', py_repr(interp, v.concrete[0], path), '}'])
         interp.set_iteration_sites.append(('repr(set)', list(interp.call_stack)))
+        if v.sym is None:
+            parts = ['{']
+            for i, x in enumerate(omega_order(interp, v.concrete)):
+                if i:
+                    parts.append(', ')
+                parts.append(py_repr(interp, x, path))
+            parts.append('}')
+            return mkstr(parts)
         return mkstr([ops.abs_const('repr-set:' + canon(v) + fresh_name('omega'), z3.StringSort(), 'reprset')])
     if isinstance(v, DictV):
         if v.dom is None:
@@ -220,7 +228,8 @@ def seq_of(interp, v, path, what='iterable'):
         if v.sym is None:
             if len(v.concrete) > 1:
                 interp.set_iteration_sites.append(('iterate(set)', list(interp.call_stack)))
-            return SeqT([LitB(v.concrete)]) if v.concrete else SeqT()
+            items = omega_order(interp, v.concrete)
+            return SeqT([LitB(items)]) if items else SeqT()
         raise Unsupported('iteration over a symbolic set needs a loop invariant')
     if isinstance(v, DictV):
         if v.dom is None:
@@ -233,6 +242,21 @@ def seq_of(interp, v, path, what='iterable'):
     if isinstance(v, (int, bool, float)) or (is_z3(v) and not z3.is_seq(v)):
         interp.raise_builtin('TypeError', 'object is not iterable')
     raise Unsupported(f'iteration over {type(v).__name__}')
+
+
+def omega_order(interp, items):
+    """the iteration order of a finite set under the oracle interp.omega (index into the permutations of the
+    insertion order; 0 = insertion order).  Set iteration order is NOT defined by the language: output must not
+    depend on it (C08), which the harness checks by comparing runs under different oracles."""
+    import itertools
+    items = list(items)
+    k = getattr(interp, 'omega', 0)
+    if k == 0 or len(items) < 2:
+        return items
+    if len(items) > 4:
+        return items[::-1] if k % 2 else items
+    perms = list(itertools.permutations(items))
+    return list(perms[k % len(perms)]) if k % len(perms) else items[::-1]
 
 
 def list_extend(interp, path, lst: SeqV, other):
@@ -1107,46 +1131,54 @@ def _s_splitlines(interp, path, args, kw):
 
 
 def _split_core(interp, path, s):
-    # syntactic split when every symbolic part is provably free of line boundaries
-    segs = [[]]
-    ok = True
-    for p in s.parts:
+    """Syntactic str.splitlines() of a string term.  Literal parts are split at every line boundary; symbolic parts
+    must be provably free of boundaries.  A part  '\n'.join(L)  that starts at a line start and is followed by a
+    literal line break contributes the elements of L as lines when every element of L is free of boundaries and L
+    is non-empty (law T1 of DESIGN.md: splitlines('\n'.join(L) + '\n') == L; trusted stdlib law, validated against
+    CPython by tools/selftest.py)."""
+    blocks = []          # finished lines (LitB) and whole line sequences (blocks of L)
+    cur = []             # parts of the line being built
+    parts = list(s.parts)
+    i = 0
+    while i < len(parts):
+        p = parts[i]
         if isinstance(p, str):
-            i = 0
-            while i < len(p):
-                ch = p[i]
+            j = 0
+            while j < len(p):
+                ch = p[j]
                 if ch in ops.LINE_BREAKS:
-                    if ch == '\r' and i + 1 < len(p) and p[i + 1] == '\n':
-                        i += 1
-                    segs.append([])
+                    if ch == '\r' and j + 1 < len(p) and p[j + 1] == '\n':
+                        j += 1
+                    blocks.append(LitB([mkstr(cur)]))
+                    cur = []
                 else:
-                    segs[-1].append(ch)
+                    cur.append(ch)
+                j += 1
+            i += 1
+            continue
+        if isinstance(p, JoinT) and p.sep == '\n' and not cur and i + 1 < len(parts) and \
+                isinstance(parts[i + 1], str) and parts[i + 1].startswith('\n'):
+            okj = forall_items(interp, path, p.seq, lambda it, pp: str_break_free(interp, it, pp))
+            ne = interp.seq_nonempty(p.seq, path)
+            if okj and (ne is True or (ne is not False and path.entails(interp.zbool(ne)))):
+                blocks.extend(p.seq.blocks)
+                parts[i + 1] = parts[i + 1][1:]
                 i += 1
-        else:
-            if not part_break_free(interp, path, p):
-                ok = False
-                if os.environ.get('PYVC_DEBUG_SPLIT'):
-                    print('splitlines: not provably break-free:', str(p)[:300], '| stack', interp.call_stack[-3:])
-                    g = ops.no_break(p, path)
-                    r = path.check(z3.Not(g), timeout_ms=20000)
-                    print('   with 20 s budget:', r, 'index', path.index_terms, 'binders', path.binders)
-                    path._sync()
-                    for a_ in path._solver.assertions():
-                        if 'Event.name' in str(a_):
-                            print('   A:', str(a_)[:700].replace(chr(10), ' '))
-                break
-            segs[-1].append(p)
-    if ok:
-        lines = [mkstr(x) for x in segs]
-        last = lines[-1]
-        blocks = [LitB(lines[:-1])]
-        ne = ops.str_nonempty(last)
-        if ne is True:
-            blocks.append(LitB([last]))
-        elif ne is not False:
-            blocks.append(GuardB(ne, SeqT([LitB([last])])))
-        return mkseq(blocks)
-    return None
+                continue
+            return None
+        if not part_break_free(interp, path, p):
+            if os.environ.get('PYVC_DEBUG_SPLIT'):
+                print('splitlines: not provably break-free:', str(p)[:300], '| stack', interp.call_stack[-3:])
+            return None
+        cur.append(p)
+        i += 1
+    last = mkstr(cur)
+    ne = ops.str_nonempty(last)
+    if ne is True:
+        blocks.append(LitB([last]))
+    elif ne is not False:
+        blocks.append(GuardB(ne, SeqT([LitB([last])])))
+    return mkseq(blocks)
 
 
 def _syntactic_break_free(e, declared=(), depth=0):
@@ -1246,8 +1278,9 @@ def part_break_free(interp, path, p):
             cache[key] = str_break_free(interp, p.sep, path) is True and \
                 forall_items(interp, path, p.seq, lambda it, pp: str_break_free(interp, it, pp))
         return cache[key]
-    if getattr(interp, 'model_strings_break_free', False) and _syntactic_break_free(p, interp.break_free_syms):
-        return True
+    if getattr(interp, 'model_strings_break_free', False):
+        # declared-break-free mode: decided syntactically (no solver), see assumption MV-1
+        return _syntactic_break_free(p, interp.break_free_syms)
     key = p.get_id()
     cache = path.__dict__.setdefault('_bf', {})
     if key not in cache:
@@ -1285,7 +1318,11 @@ def _s_strip(interp, path, args, kw, left=True, right=True):
     cur = mkstr(parts)
     z = to_zstr(cur)
     mode = 'strip' if (not done_l and not done_r) else ('lstrip' if not done_l else 'rstrip')
-    return mkstr([strip_term(interp, path, z, mode)])
+    r = strip_term(interp, path, z, mode)
+    if any(isinstance(p, str) and p.strip() for p in parts):
+        # a literal non-whitespace character survives stripping
+        path.define(z3.Length(r) > 0)
+    return mkstr([r])
 
 
 def strip_term(interp, path, z, mode, depth=0):
@@ -1538,6 +1575,9 @@ def _set_pop(interp, path, args, kw):
             interp.raise_builtin('KeyError', 'pop from an empty set')
         if len(s.concrete) > 1:
             interp.set_iteration_sites.append(('set.pop', list(interp.call_stack)))
+            x = omega_order(interp, s.concrete)[-1]
+            s.concrete.remove(x)
+            return x
         return s.concrete.pop()
     raise Unsupported('pop on symbolic set')
 
